@@ -202,7 +202,8 @@ class Fxp():
         # check if init must be a `like` other Fxp
         if like is not None:
             if isinstance(like, Fxp):
-                self.__dict__ = copy.deepcopy(like.__dict__)
+                # (references that `like` holds to itself, e.g. as its own config.op_out, become references to the new object)
+                self.__dict__ = copy.deepcopy(like.__dict__, {id(like): self})
                 self.val = None
                 self.real = None
                 self.imag = None
@@ -211,7 +212,7 @@ class Fxp():
         elif self.template is not None:
             # init must be a `like` template Fxp
             if isinstance(self.template, Fxp):
-                self.__dict__ = copy.deepcopy(self.template.__dict__)
+                self.__dict__ = copy.deepcopy(self.template.__dict__, {id(self.template): self})
                 self.val = None
                 self.real = None
                 self.imag = None
